@@ -470,6 +470,43 @@ fn faults_for(mode: Mode, tier: Tier, seed: u64, img: &ImageInfo) -> Vec<Fault> 
                 }
             }
         }
+        // crafted damage, continued (C04 and C06): the two tables of a content pack - content
+        // infos (cluster number and blob number of every content, 4 bytes each) and cluster
+        // pointers (size and position of every cluster tail, 8 bytes each) - altered with the
+        // table's CRC recomputed: tables that are valid blocks and contradict the pack they are in
+        // (a content in a cluster the pack does not have, a tail outside the pack). The pack's
+        // global hash still sees it (C04); reading must answer with values or errors (C06)
+        if mode == Mode::C04 || mode == Mode::C06 {
+            for span in &img.spans[fi] {
+                if span.kind != b'c' || span.size < 192 {
+                    continue;
+                }
+                let h = (span.start + 64) as usize;
+                let rd64 = |at: usize| u64::from_le_bytes(file[at..at + 8].try_into().unwrap());
+                let rd32 = |at: usize| u32::from_le_bytes(file[at..at + 4].try_into().unwrap()) as u64;
+                let tables = [(rd64(h), rd32(h + 16), 4u64), (rd64(h + 8), rd32(h + 20), 8u64)];
+                for (pos, count, elem) in tables {
+                    let (lo, len) = (span.start + pos, count * elem);
+                    if count == 0 || pos + len + 4 > span.size {
+                        continue;
+                    }
+                    let stored = u32::from_be_bytes(file[(lo + len) as usize..(lo + len + 4) as usize].try_into().unwrap());
+                    if simcore::fault::crc32c_jubako(&file[lo as usize..(lo + len) as usize]) != stored {
+                        simcore::harness_error("the harness's idea of a content pack's tables does not reproduce their stored CRC");
+                    }
+                    for at in 0..len {
+                        // every byte of small tables; the first and last 48 bytes and a seeded
+                        // sample of larger ones
+                        if len > 128 && at >= 48 && at + 48 < len && !rng.chance(64, len) {
+                            continue;
+                        }
+                        for mask in [0x01u8, 0x10, 0xFF] {
+                            out.push(Fault::FlipFix { file: fi, pos: lo + at, mask, block_start: lo, block_len: len });
+                        }
+                    }
+                }
+            }
+        }
         // paired damage: a byte of the checked range together with the kind byte of the pack's
         // check block (blake3 -> "no check"): the check block's own CRC must catch the second one
         if mode != Mode::C06 {
@@ -1031,7 +1068,11 @@ pub fn child_main(args: &Args) -> ! {
         // (C05/C06, in-place delivery) a container opened and verified before the alteration and
         // read only after it: whatever it answers then is what was written, or an error
         let mut held_container: Option<jubako::reader::Container> = None;
-        if delivery == "written" || files.iter().any(|b| b.as_slice() == simcore::fault::REMOVED) {
+        // (only for alterations that keep every file's length: a file that shrinks under a live
+        // memory mapping takes the process down with SIGBUS whatever the library does - that is
+        // what a mapping is, and outside every claimed property)
+        let same_lengths = files.iter().zip(&pristine_bytes).all(|(a, b)| a.len() == b.len());
+        if delivery == "written" || !same_lengths || files.iter().any(|b| b.as_slice() == simcore::fault::REMOVED) {
             write_files(&case_dir, &names, &files);
         } else {
             write_files(&case_dir, &names, &pristine_bytes);
@@ -1064,8 +1105,14 @@ pub fn child_main(args: &Args) -> ! {
                     .set_accessed(meta.accessed().expect("atime"))
                     .set_modified(meta.modified().expect("mtime"));
                 let target = if delivery == "renamed-over-times-kept" { case_dir.join(format!("{n}.incoming")) } else { path.clone() };
-                std::fs::write(&target, b).expect("write case file");
-                std::fs::OpenOptions::new().write(true).open(&target).and_then(|f| f.set_times(times)).expect("set file times");
+                // (in place: over the bytes that are there, never through a truncation - readers
+                // of the pristine file may still hold mappings of it)
+                {
+                    use std::io::Write;
+                    let mut f = std::fs::OpenOptions::new().write(true).create(true).open(&target).expect("open case file");
+                    f.write_all(b).expect("write case file");
+                    f.set_times(times).expect("set file times");
+                }
                 if target != path {
                     std::fs::rename(&target, &path).expect("rename case file");
                 }
